@@ -254,6 +254,9 @@ pub fn run(c: &Case) -> Outcome {
     if c.profile.activations.len() > 1 {
         out.label("reactivation");
     }
+    if c.profile.finalization_noise & 0x0F != 0 {
+        out.label("set-error-info-inside-finalization");
+    }
     if c.profile.user_id >= 0x8000 {
         out.label("user-id>=0x8000");
     }
@@ -288,7 +291,9 @@ pub fn run_tls(c: &Case) -> Outcome {
         profile: c.profile.clone(),
         record_cut: c.chunk,
     };
-    let reads = 6 * c.profile.activations.len() - 1;
+    // one read per server frame: demand-active, four finalization PDUs, the deactivate-all of the next round, and the ignorable
+    // PDUs the profile puts in front of finalization PDUs
+    let reads = (6 + (c.profile.finalization_noise & 0x0F).count_ones() as usize) * c.profile.activations.len() - 1;
     let run = tls::run_tls(&c.cfg, &scfg, reads, true, &mut |_| ());
     if run.client_timeout || run.report.timeout {
         out.fail("inconclusive:timeout", "a socket timeout hit; not counted as a violation");
@@ -394,4 +399,5 @@ pub fn check(rep: &Report) {
     rep.require("connections", "hybrid-selected", 1000);
     rep.require("connections", "user-id>=0x8000", 500);
     rep.require("connections", "unknown-caps", 1000);
+    rep.require("connections", "set-error-info-inside-finalization", 1000);
 }
